@@ -49,6 +49,8 @@ def run(ctx):
         raise lib.ModelFailure("vacuity guard: the schedule invariants hold for the model of the unfixed get_subset_num")
     ctx.notes.append("vacuity guard: model of get_subset_num before fix 1938172c2 violates the schedule invariants (%d states)" % r.distinct)
     # ------------------------------------------------------------------ 2. record
+    import time as _t
+    ctx.notes.append("model checks: %.0f s" % (_t.time() - ctx.t0))
     exe = lib.build_driver("c06_subsets")
     env = {"VERIF_SEED": str(ctx.seed)}
     jobs = []   # (module, trace)
@@ -66,16 +68,29 @@ def run(ctx):
         t5 = os.path.join(ctx.work, "reconsched.ndjson")
         lib.run_driver(exe, ["recon", t4, t5, 0 if q else 1], env=env, timeout=1200)
         jobs += [("Trace_Subsets", t1), ("Trace_Subsets", t2), ("Trace_IterSchedule", t3), ("Trace_Subsets", t4), ("Trace_IterSchedule", t5)]
+    ctx.notes.append("build + record: %.0f s after start" % (_t.time() - ctx.t0))
     # ------------------------------------------------------------------ 3. validate
     nconf = nrun = nsub = 0
+    import concurrent.futures as cf, time
+    t0 = time.time()
+    work = []   # (module, chunk path)
     for module, t in jobs:
         if module == "Trace_Subsets":
-            chunks = lib.split_trace(t, os.path.join(ctx.work, "chunks"), maxlines=2500)
+            chunks = lib.split_trace(t, os.path.join(ctx.work, "chunks"), maxlines=2500 if q else 3000)
+            if not ctx.replay and os.path.getsize(t) > 30e6:
+                os.remove(t)     # keep the scratch directory small: the chunks are copies
         else:
             chunks = [(t, 1)]
-        if not ctx.replay and os.path.getsize(t) > 30e6:
-            os.remove(t)     # keep the scratch directory small: the chunks are copies
-        res = lib.validate_parallel(module, [c[0] for c in chunks], jobs=W, timeout=2400, heap="3g")
+        work += [(module, c[0]) for c in chunks]
+
+    def one(mp):
+        ok, r, at = lib.validate_trace(mp[0], mp[1], timeout=2400, heap="3g")
+        return (mp[0], mp[1], ok, r, at)
+    with cf.ThreadPoolExecutor(W) as ex:
+        allres = list(ex.map(one, work))
+    ctx.notes.append("trace validation: %d TLC runs, %.0f s" % (len(work), time.time() - t0))
+    for module in ("Trace_Subsets", "Trace_IterSchedule"):
+        res = [(p, ok, r, at) for (m, p, ok, r, at) in allres if m == module]
         for (p, ok, r, at) in res:
             recs = lib.read_ndjson(p)
             ctx.traces += 1
